@@ -530,6 +530,14 @@ def r8_utc_timestamp(ctx, rule='C14.R8'):
 
 
 def run(ctx):
+    from .shared import file_digest_covers_stream
+
+    file_digest_covers_stream(ctx, 'C14.R9')
+    from ..report import Relabel as _RL9
+    from .c12 import r2_rewind
+
+    # a chunk object holds exactly the bytes its name and key were derived from: a retried upload restarts from byte 0
+    r2_rewind(_RL9(ctx, 'C14.R9'), rule='C14.R9')
     from ..report import Relabel
     from .c01 import r3b_chunk_record_fresh, r3_order_key
 
